@@ -5,6 +5,8 @@ of Simulation.save_results regenerated from the source)
  + fault enumeration on the implementation (harness/impl/c18_impl.py, c18_helpers.FaultFS): histories
    (run, crash, resume)* with a crash before every primitive path operation and inside every write,
    each history compared step by step and state by state with the Coq model (vm_compute)
+ + the name choice of Simulation.fix_output_filenames (Skip / ValueError / out[_i].ext) on generated directory contents,
+   compared with Model/FixNames.v `fix_name` (stream fix-name, checker Model/FixNamesCheck.v)
  + oracles written from the property text (a loadable file of the last completed checkpoint exists after
    every crash; resumed runs finish with the results of the plain run; none lost, none duplicated).
 """
@@ -384,11 +386,135 @@ def direct_eval(ctx, cases, results, coq_save, meta_save, coq_init, meta_init):
 
 
 # ----------------------------------------------------------------------------------------------
+# fix_output_filenames: choice of the output name against Model/FixNames.v `fix_name`
+# ----------------------------------------------------------------------------------------------
 
-def run_coq(ctx, name, checker, cases, meta, what):
+FIX_IMPORTS = ['Base.Prelude', 'Model.FixNames', 'Model.FixNamesCheck']
+
+
+def fix_cand(root, ext, i):
+    return root + ext if i == 0 else '%s_%d%s' % (root, i, ext)
+
+
+def fix_backup(name, ext):
+    return name[:len(name) - len(ext)] + '.backup' + ext
+
+
+def fix_cases(ctx):
+    """<= 300 directory contents x option settings for Simulation.fix_output_filenames."""
+    rng = ctx.rng
+    n_total = 300 if (ctx.thorough() or not ctx.proof.ok) else 240
+    cases = []
+
+    def flags(i):
+        # all 8 settings of (skip, overwrite, loaded) in turn; the fresh non-overwriting run (the one that
+        # searches a free name) more often
+        k = i % 12
+        if k >= 8:
+            return False, False, False
+        return bool(k & 1), bool(k & 2), bool(k & 4)
+
+    def noise_for(root, ext, existing):
+        pool = []
+        for i in rng.sample(range(0, 101), 4) + [j for j in (0, 1, 2) if rng.random() < 0.5]:
+            nm = fix_cand(root, ext, i) if i <= 99 else fix_cand(root, ext, 99)
+            pool += [fix_backup(nm, ext), nm + '.__old__', '__old__' + nm, nm + '.backup']
+        other = '.pkl' if ext == '.h5' else '.h5'
+        for i in rng.sample(range(1, 12), 3):
+            pool += ['%s_%02d%s' % (root, i, ext) if i < 10 else '%s_0%d%s' % (root, i, ext),
+                     '%s_%d%s' % (root, i, other), '%s_%d' % (root, i), '%s%d%s' % (root, i, ext), '%s-%d%s' % (root, i, ext)]
+        pool += [root + '_0' + ext, root + '_100' + ext, root + '_' + ext, root + other, root, root + '_1_1' + ext]
+        cands = set(fix_cand(root, ext, i) for i in range(0, 100))
+        pool = [x for x in dict.fromkeys(pool) if x not in cands]
+        return sorted(rng.sample(pool, rng.randint(0, min(8, len(pool)))))
+
+    shapes = ['random', 'prefix', 'prefix-hole', 'prefix-hole', 'no-zero', 'sparse', 'prefix']
+    big = [('full', None), ('full', None), ('upto98', None), ('full-hole', None), ('full-hole', None), ('full-no-zero', None),
+           ('full', None), ('full-hole', None), ('upto98', None), ('full', None)]
+    n_big = 24
+    for n in range(n_total):
+        root, ext = rng.choice([('out', '.h5'), ('out', '.pkl'), ('res.v2', '.h5'), ('data_7', '.pkl')])
+        skip, overwrite, loaded = flags(n)
+        if n < n_big:
+            shape = big[n % len(big)][0]
+            if shape == 'full':
+                existing = list(range(100))
+            elif shape == 'upto98':
+                existing = list(range(99))
+            elif shape == 'full-hole':
+                h = rng.choice([1, 2, 50, 97, 98, 99, rng.randint(1, 99)])
+                existing = [i for i in range(100) if i != h]
+            else:
+                existing = list(range(1, 100))
+            if n % 3 != 2:
+                skip, overwrite, loaded = False, False, False
+        else:
+            shape = shapes[n % len(shapes)]
+            if shape == 'random':
+                q = rng.choice([0.3, 0.6, 0.9])
+                existing = [i for i in range(0, 13) if rng.random() < (0.85 if i == 0 else q)]
+            elif shape == 'prefix':
+                existing = list(range(rng.randint(0, 14)))
+            elif shape == 'prefix-hole':
+                m = rng.randint(3, 16)
+                h = rng.randint(1, m - 1)
+                existing = [i for i in range(m) if i != h] + [i for i in range(m + 1, m + 5) if rng.random() < 0.5]
+            elif shape == 'no-zero':
+                existing = [i for i in range(1, 8) if rng.random() < 0.7]
+            else:
+                existing = [0] + sorted(rng.sample(range(1, 100), rng.randint(0, 5)))
+        cases.append({'root': root, 'ext': ext, 'existing': existing, 'noise': noise_for(root, ext, existing),
+                      'skip': skip, 'overwrite': overwrite, 'loaded': loaded, 'safe': rng.random() < 0.7,
+                      'via': 'init' if n % 2 == 0 else 'method',
+                      'defaults': (not skip and not overwrite and rng.random() < 0.3), 'shape': shape})
+    return cases
+
+
+def fix_eval(ctx, cases, results, coq_cases, coq_meta):
+    for c, r in zip(cases, results):
+        case = {'stream': 'fix-name', 'case': c}
+        root, ext = c['root'], c['ext']
+        ctx.count('fix-name', c, nontrivial=0 in c['existing'],
+                  sample={'existing': c['existing'], 'noise': c['noise'], 'skip': c['skip'], 'overwrite': c['overwrite'],
+                          'loaded': c['loaded'], 'observed': [r.get('outcome'), r.get('name')]})
+        oc = r.get('outcome') or 'error: no outcome'
+        if oc.startswith('error'):
+            ctx.fail('correspondence', 'fix_output_filenames raised an unexpected exception: %s' % oc[:300], dict(case, observed=r))
+            continue
+        if oc == 'skip':
+            obs = 'FSkip'
+        elif oc == 'raise':
+            obs = 'FRaise'
+        else:
+            index = {fix_cand(root, ext, i): i for i in range(0, 130)}
+            if r['name'] not in index or not r.get('dir_ok'):
+                ctx.fail('correspondence', 'fix_output_filenames chose %r which is not of the form root[_i]ext in the output directory'
+                         % (r['name'],), dict(case, observed=r))
+                continue
+            obs = '(FName %d%%nat)' % index[r['name']]
+            # bookkeeping around the choice (not part of fix_name): backup name belongs to the chosen name; nothing
+            # but the marker in a non-existing backup name is written; no existing file is modified
+            exp_bak = fix_backup(r['name'], ext) if c['safe'] else None
+            before = set(fix_cand(root, ext, i) for i in c['existing']) | set(c['noise'])
+            exp_created = [exp_bak] if (exp_bak is not None and exp_bak not in before) else []
+            if r['backup'] != exp_bak or r['created'] != exp_created:
+                ctx.fail('correspondence', 'fix_output_filenames: backup name %r / files created %r, expected %r / %r'
+                         % (r['backup'], r['created'], exp_bak, exp_created), dict(case, observed=r))
+        if r['changed'] or (oc != 'name' and r['created']):
+            ctx.fail('correspondence', 'fix_output_filenames modified existing files %r / created %r'
+                     % (r['changed'], r['created']), dict(case, observed=r))
+        b = lambda x: 'true' if x else 'false'  # noqa: E731
+        coq_cases.append('([%s], %s, %s, %s, %s)' % ('; '.join('%d%%nat' % i for i in c['existing']),
+                                                    b(c['skip']), b(c['overwrite']), b(c['loaded']), obs))
+        coq_meta.append(dict(case, observed=r))
+
+
+# ----------------------------------------------------------------------------------------------
+
+def run_coq(ctx, name, checker, cases, meta, what, imports=None):
     if not cases:
         return
-    bad, err = common.coq_failing_indices(name, IMPORTS, checker, cases)
+    bad, err = common.coq_failing_indices(name, imports or IMPORTS, checker, cases)
     if err:
         ctx.fail('correspondence', 'model evaluation failed (%s): %s' % (name, err[-600:]), None)
     for b in bad[:5]:
@@ -397,7 +523,7 @@ def run_coq(ctx, name, checker, cases, meta, what):
 
 
 def main(ctx):
-    ctx.proof = common.check_proofs('C18')
+    ctx.proof = common.check_proofs('C18', extra_targets=['Model/FixNamesCheck.vo'])
     intens = not ctx.proof.ok
     NP = common.NPROC
     # ---- replay of a single recorded input
@@ -458,8 +584,14 @@ def main(ctx):
     specs = real_specs(ctx)
     rjobs = [dict(kind='real', spec=s, modes=['listener', 'write', 'rename'] if (s['fmt'] == 'pkl' or ctx.thorough()) else ['listener', 'write'])
              for s in specs]
-    allres = common.run_impl_parallel('c18_impl.py', rjobs + jobs + djobs, maxpar=NP)
-    rres, jres, dres = allres[:len(rjobs)], allres[len(rjobs):len(rjobs) + len(jobs)], allres[len(rjobs) + len(jobs):]
+    # ---- 4. fix_output_filenames: choice of the name (generated last: the other streams keep their inputs)
+    fcases = fix_cases(ctx)
+    fchunks = [fcases[i::3] for i in range(3)]
+    fjobs = [dict(kind='fix_names', cases=ch) for ch in fchunks]
+    allres = common.run_impl_parallel('c18_impl.py', rjobs + jobs + djobs + fjobs, maxpar=NP)
+    rres, jres = allres[:len(rjobs)], allres[len(rjobs):len(rjobs) + len(jobs)]
+    dres = allres[len(rjobs) + len(jobs):len(rjobs) + len(jobs) + len(djobs)]
+    fres = allres[len(rjobs) + len(jobs) + len(djobs):]
 
     coq_cases, coq_meta = [], []
     for job, (res, err) in zip(jobs, jres):
@@ -486,6 +618,16 @@ def main(ctx):
     run_coq(ctx, 'c18_save', 'check_save', coq_save, meta_save, 'Model/Fs.v save_ops and Simulation.save_results disagree')
     run_coq(ctx, 'c18_init', 'check_init', coq_init, meta_init, 'Model/Fs.v init_ops and Simulation.fix_output_filenames disagree')
 
+    coq_fix, meta_fix = [], []
+    for ch, (res, err) in zip(fchunks, fres):
+        if err or isinstance(res, dict):
+            ctx.fail('correspondence', 'fix_names runner failed: %s' % (err or res.get('runner_error', ''))[-500:], None)
+            continue
+        fix_eval(ctx, ch, res, coq_fix, meta_fix)
+    run_coq(ctx, 'c18_fixname', 'check_fix_name', coq_fix, meta_fix,
+            'Model/FixNames.v fix_name and Simulation.fix_output_filenames disagree on the chosen output name / Skip / ValueError',
+            imports=FIX_IMPORTS)
+
     coq_proto, meta_proto = [], []
     for job, (res, err) in zip(rjobs, rres):
         if err or 'runner_error' in res:
@@ -510,6 +652,8 @@ def main(ctx):
 RULE = ('fs-history: all crash points (before every primitive path operation, inside every write at several byte prefixes; thorough: every byte '
         'prefix) of a step simulation with 1-3 checkpoints, pickle and HDF5, followed by resume and a second (third) crash at every step of the '
         'resumed run; non-trivial = at least two process life times or a torn write; distinct = distinct (format, safe_write, steps, crash history). '
-        'save-direct: save_results / fix_output_filenames from all 16 disk states x safe_write x crash point. real-resume: DMRG (1-/2-site), TEBD '
+        'save-direct: save_results / fix_output_filenames from all 16 disk states x safe_write x crash point. fix-name: '
+        'fix_output_filenames in directories with generated subsets of the names out, out_1 .. out_99 (+ names to be ignored) x skip_if_output_exists x '
+        'overwrite_output x loaded_from_checkpoint against Model/FixNames.v fix_name; non-trivial = the configured name exists. real-resume: DMRG (1-/2-site), TEBD '
         '(order 2/4), TDVP (1-/2-site) simulations stopped at every algorithm checkpoint (after the save, inside the write, after the rename), resumed, '
         'compared with the plain run.')
